@@ -35,7 +35,14 @@ def main():
     fmt = job["fmt"]
     try:
       if fmt in ("weights_h5", "weights_v3", "weights_tf"):
-        model = keras.models.model_from_json(job["json"], custom_objects=co)
+        if job.get("rebuild"):
+          # The user's own model-building code runs again in the new process.
+          from simlat.worlds import builders
+          # A new process starts from its own global RNG state.
+          keras.utils.set_random_seed(int(job.get("rng_seed", 1)))
+          model = builders.BUILDERS[job["spec"]["builder"]].build(job["spec"])
+        else:
+          model = keras.models.model_from_json(job["json"], custom_objects=co)
         model.load_weights(job["path"])
       else:
         model = keras.models.load_model(job["path"], custom_objects=co)
@@ -58,9 +65,15 @@ def main():
         except Exception as e:  # pylint: disable=broad-except
           ok, why = False, "%s: %s" % (layer.name, str(e)[:200])
           break
+      lcfg = []
+      for layer in model._flatten_layers(include_self=False, recursive=True):  # pylint: disable=protected-access
+        if type(layer).__module__.startswith("tensorflow_lattice"):
+          c = modelworld.json_norm(layer.get_config())
+          c.pop("name", None)
+          lcfg.append([type(layer).__name__, c])
       np.savez(job["out"], y=y)
       res = {"ok": True, "config": cfg, "var_meta": meta, "assert_ok": ok,
-             "assert_why": why}
+             "assert_why": why, "layer_configs": lcfg}
     except Exception as e:  # pylint: disable=broad-except
       res = {"ok": False, "exc_type": type(e).__name__,
              "exc_text": str(e)[:2000], "tb": traceback.format_exc()[-3000:]}
